@@ -60,9 +60,22 @@ def r1_parent_stack(ctx):
     ctx.form(after == ["self.parents.append(Parent(node.indent, node.name))",
                        "node.name = Sign.SEPARATOR.join([parent.name for parent in self.parents])"], HIE, "HierarchyList.register",
              "then the node is pushed and its path is the join of all parents' names", detail=after)
-    guard = [n for n in fn.body if isinstance(n, ast.If)]
-    ctx.form(len(guard) == 1 and norm(guard[0].test) == "node.name is not None and node.keyword not in excluded", HIE,
-             "HierarchyList.register", "only named, hierarchy-relevant nodes enter the stack")
+    from ..flowexpr import consistent, paths
+    pa = [a.arg for a in fn.args.args]
+    nd, exd = (pa[1], pa[2]) if len(pa) == 3 else ("node", "excluded")
+    ps = paths(fn)
+    table, unk = {}, []
+    for named in (True, False):
+        for excl in (True, False):
+            cs, u = consistent(ps, lambda e, _n=named, _x=excl: {f"{nd}.name is not None": _n, f"{nd}.name is None": not _n, f"{nd}.name": _n,
+                                                                  f"{nd}.keyword not in {exd}": not _x, f"{nd}.keyword in {exd}": _x}.get(norm(e)))
+            unk += u
+            table[(named, excl)] = any(e.kind == "expr" and norm(e.resolved).startswith("self.parents.append(") for q in cs for e in q.events)
+    if unk:
+        ctx.unrecognised(HIE, "HierarchyList.register", "only named, hierarchy-relevant nodes enter the stack", f"test not decided: {sorted(set(unk))[:2]}")
+    else:
+        ctx.check(table == {(True, False): True, (True, True): False, (False, False): False, (False, True): False}, HIE,
+                  "HierarchyList.register", "only named, hierarchy-relevant nodes enter the stack", detail={f"named={k[0]} excluded={k[1]}": v for k, v in table.items()})
     # DIP.parse registers every processed node before deciding what it is
     p = ctx.fn(DIP, "DIP.parse")
     s = norm(p)
@@ -123,9 +136,16 @@ def r2_recogniser_order(ctx):
     # typed nodes answer to the keyword the type parser produces
     pt = ctx.fn(PAR, "Parser.part_type")
     types = None
-    for st in pt.body:
-        if isinstance(st, ast.Assign) and norm(st.targets[0]) == "types":
-            types = Evaluator(ctx.repo, ctx.repo.module(PAR)).ev(st.value)
+    # the table is what the 4-tuple loop (keyword, pattern, precision, unsigned) ranges over: a local, a module constant or a literal
+    for lp in [n for n in ast.walk(pt) if isinstance(n, ast.For) and isinstance(n.target, ast.Tuple) and len(n.target.elts) == 4]:
+        src = lp.iter
+        if isinstance(src, ast.Name):
+            loc = [st.value for st in pt.body if isinstance(st, ast.Assign) and norm(st.targets[0]) == src.id]
+            src = loc[-1] if loc else src
+        try:
+            types = [tuple(t) for t in Evaluator(ctx.repo, ctx.repo.module(PAR)).ev(src)]
+        except (AnalysisError, TypeError):
+            types = None
     if not types:
         ctx.unrecognised(PAR, "Parser.part_type", "type table", "types list not found")
         return
